@@ -31,6 +31,7 @@ func c12BaseWorld() *world.World {
 			{Ns: "ns2", Name: "rc", Kind: world.KRC, Labels: map[string]string{"app": "b", "env": "a"}, Ports: []world.CPort{{Num: 81, Name: "metrics"}}},
 			{Ns: "ns1", Name: "pod", Kind: world.KPod, Labels: map[string]string{"app": "a", "env": "c"}, Ports: []world.CPort{{Num: 80, Name: "http"}}},
 			{Ns: "ns1", Name: "owned", Kind: world.KOwnedPods, NPods: 1, OwnerKind: world.KReplicaSet, Labels: map[string]string{"app": "c"}},
+			{Ns: "ns2", Name: "bare", Kind: world.KPod}, // a pod without any label
 		},
 	}
 	w.NetPols = []world.NetPol{{Ns: "ns1", Name: "np", PodSel: world.Sel{ML: map[string]string{"app": "a"}, ME: []world.Req{{Key: "env", Op: "NotIn", Vals: []string{"b"}}}},
@@ -38,6 +39,11 @@ func c12BaseWorld() *world.World {
 		Ingress: []world.NPRule{{Peers: []world.NPPeer{{PodSel: &world.Sel{ML: map[string]string{"app": "b"}}, NsSel: &world.Sel{ME: []world.Req{{Key: "env", Op: "Exists"}}}},
 			{IPBlock: &world.IPB{CIDR: "10.0.0.0/8", Except: []string{"10.1.0.0/16"}}}}, Ports: []world.NPPort{{Proto: "TCP", Port: 80, EndPort: 90}, {Name: "http"}, {Proto: "UDP"}}}},
 		Egress: []world.NPRule{{Peers: []world.NPPeer{{NsSel: &world.Sel{}}}, Ports: []world.NPPort{{Port: 53, Proto: "UDP"}}}, {}}}}
+	// a policy selecting every pod of ns2 (the label-less one too) whose rule peers are pod selectors nobody satisfies (exposure analysis
+	// creates label-less representative pods of ns2 for them)
+	w.NetPols = append(w.NetPols, world.NetPol{Ns: "ns2", Name: "np-all", PodSel: world.Sel{},
+		Ingress: []world.NPRule{{Peers: []world.NPPeer{{PodSel: &world.Sel{ML: map[string]string{"app": "nobody"}}}}, Ports: []world.NPPort{{Port: 443}}}},
+		Egress:  []world.NPRule{{Peers: []world.NPPeer{{PodSel: &world.Sel{ME: []world.Req{{Key: "app", Op: "NotIn", Vals: []string{"a", "b"}}, {Key: "tier", Op: "DoesNotExist"}}}}}}}})
 	w.ANPs = []world.ANP{{Name: "anp", Priority: 10, Subject: world.Subject{PodsNs: &world.Sel{ML: map[string]string{"env": "a"}}, PodsPod: &world.Sel{}},
 		Ingress: []world.ANPRule{{Name: "r0", Action: "Allow", Peers: []world.Subject{{Namespaces: &world.Sel{}}}, HasPorts: true,
 			Ports: []world.ANPPort{{Kind: "num", Proto: "TCP", Port: 80}, {Kind: "range", Proto: "UDP", Port: 1, End: 100}, {Kind: "named", Name: "http"}}}},
